@@ -426,7 +426,7 @@ Lemma wmsg_enabled : forall s m l, invA s -> wr s = WsRun -> buf (msgQ s) = m ::
   exists pick wok, step s (WMsg pick wok) <> None.
 Proof.
   intros s m l HA Hw Hb. destruct (write_possible_some s) as [wok Hp].
-  destruct m as [typ e|typ| |tag has].
+  destruct m as [typ e|typ| |tag has|].
   - exists 0, wok. simpl. unfold step_wmsg, ch_recv. rewrite Hw, Hb, Hp.
     destruct (complete _ _ _); discriminate.
   - exists 0, wok. simpl. unfold step_wmsg, ch_recv. rewrite Hw, Hb, Hp. discriminate.
@@ -439,6 +439,7 @@ Proof.
       destruct (default_reply _ _ _ _); discriminate.
   - exists 0, wok. simpl. unfold step_wmsg, ch_recv. rewrite Hw, Hb, Hp.
     destruct (default_reply _ _ _ _); discriminate.
+  - exists 0, wok. simpl. unfold step_wmsg, ch_recv. rewrite Hw, Hb, Hp. discriminate.
 Qed.
 
 Lemma timer_of_in : forall i k l, In (i, k) l -> exists k', timer_of i l = Some k'.
